@@ -26,6 +26,10 @@ POOL = {
     "e-": ({}, -1), "E": ({}, -1),
     "#H": ({"H": 1}, 0), "#CO": ({"C": 1, "O": 1}, 0), "#H2O": ({"H": 2, "O": 1}, 0), "#OH": ({"O": 1, "H": 1}, 0),
     "#O": ({"O": 1}, 0), "#H2": ({"H": 2}, 0),
+    # formulas that name an element more than once
+    "CH3": ({"C": 1, "H": 3}, 0), "HCO": ({"H": 1, "C": 1, "O": 1}, 0),
+    "CH3OH": ({"C": 1, "H": 4, "O": 1}, 0), "HCOOH": ({"H": 2, "C": 1, "O": 2}, 0), "HOOH": ({"H": 2, "O": 2}, 0),
+    "#CH3OH": ({"C": 1, "H": 4, "O": 1}, 0), "CH3OH2+": ({"C": 1, "H": 5, "O": 1}, 1),
 }
 ELEMENTS = ["H", "D", "He", "C", "O", "Si", "S"]
 
@@ -82,6 +86,8 @@ def gen_desc(rng, large=False):
 FIXED = [
     {"reactions": [(["H2", "C+"], ["CH", "H+"]), (["HCO+", "e-"], ["H", "CO"]), (["H", "H"], ["H2"]), (["CO"], ["#CO"]), (["#CO"], ["CO"])], "required": []},
     {"reactions": [(["oH2", "H+"], ["pH2", "H+"]), (["oH3+", "HD"], ["oH2D+", "oH2"]), (["H2D+", "E"], ["H", "H", "D"])], "required": ["He"]},
+    {"reactions": [(["CH3OH"], ["CH3", "OH"]), (["HCOOH"], ["HCO", "OH"]), (["HOOH"], ["OH", "OH"]), (["CH3OH2+", "e-"], ["CH3OH", "H"]),
+                   (["CH3OH"], ["#CH3OH"]), (["H", "O"], ["OH"]), (["C", "H"], ["CH"])], "required": []},
     {"reactions": [(["He++", "e-"], ["He+"]), (["He+", "e-"], ["He", "PHOTON"]), (["H-", "H+"], ["H", "H"]), (["H", "CR"], ["H+", "e-"])], "required": []},
 ]
 
@@ -177,7 +183,7 @@ def run(res, info):
     rng = random.Random(res.seed * 7919 + 4)
     model = fw.Model() if info["ok"] else None
     res.rule = ("balanced reactions found by enumerating product multisets with the reactants' element totals and charge over a "
-                "38-species pool (ions, both electron spellings, ortho/para labels, isotopologues, ice species); non-trivial = "
+                "45-species pool (ions, both electron spellings, ortho/para labels, isotopologues, ice species, formulas naming an element twice); non-trivial = "
                 "at least one reaction")
     res.assumptions = ["compositions are the generator's (POOL); '*'-labelled species are outside the premise (C08 finding)"]
     n_a = 200 if res.tier == "quick" else 3000
